@@ -39,9 +39,12 @@ def _crashy(case):
     """A cached read of a locator whose size hint does not fit 32 bits: BlockCache.Get's fetch goroutine
     panics in make([]byte, size, bufsize) when such a Get succeeds (process crash, not a wrong read)."""
     f = case.split(" ")
-    if f[0] != "sess":
+    if f[0] not in ("sess", "conc"):
         return False
-    big = [i for i, b in enumerate(f[4].split("|")) if (_hint_of(b.split("~")[0]) or 0) >= 2 ** 31]
+    blocks = f[4] if f[0] == "sess" else f[3]
+    big = [i for i, b in enumerate(blocks.split("|")) if 2 ** 31 <= (_hint_of(b.split("~")[0]) or 0) < 2 ** 63]
+    if f[0] == "conc":
+        return any(st[0] == "s" and int(st[1:]) in big for st in f[4].split(",") if st != "-")
     return any(op[0] == "R" and int(op[1:].split(":")[0]) in big for op in f[6].split(",") if op != "-")
 
 
@@ -337,7 +340,7 @@ def _parse_blocks(s):
     for b in s.split("|"):
         loc, planted, order, script = b.split("~")
         out.append({"loc": loc, "planted": bytes.fromhex(planted), "order": order, "script": script})
-    return out
+    return _mark(out)
 
 
 def _hint_of(loc):
@@ -348,8 +351,22 @@ def _hint_of(loc):
     return int(parts[1])
 
 
-def _consistent(blk):
+def _consistent1(blk):
     return blk["loc"][:32] == md5(blk["planted"]) and _hint_of(blk["loc"]) == len(blk["planted"])
+
+
+def _mark(blocks):
+    """A block is held to the strict rule only if every locator of the case that shares its hash (= its
+    cache key) is consistent with the planted content: the property quantifies over block contents/sizes,
+    i.e. over locators that name an existing (MD5, size) pair."""
+    bad = {b["loc"][:32] for b in blocks if not _consistent1(b)}
+    for b in blocks:
+        b["strict"] = b["loc"][:32] not in bad
+    return blocks
+
+
+def _consistent(blk):
+    return blk.get("strict", _consistent1(blk))
 
 
 def compare(case, impl, model):
@@ -524,13 +541,21 @@ def describe(cases, impl):
                 weak += 1
         if r is None:
             continue
+        if r.startswith(("CRASH", "panic", "timeout", "stuck", "bad-op")):
+            outcomes[r.split(" ")[0]] = outcomes.get(r.split(" ")[0], 0) + 1
+            continue
         for o in (r.split(" ")[0].split(",") if f[0] != "seg" else [r]):
             cls = o.split(":")
-            key = cls[0] + ":" + (cls[-1] if f[0] != "seg" else cls[2])
-            if f[0] == "sess" and cls[0] == "g" and len(cls) == 5:
+            if f[0] == "seg":
+                key = "seg:" + cls[2]
+            elif f[0] == "conc":
+                key = "conc:" + cls[-1]
+            elif cls[0] == "g" and len(cls) == 5:
                 key = "g:" + cls[3] + "/" + cls[4]
-            elif f[0] == "sess" and cls[0] in ("a", "k") and cls[-1].isdigit():
+            elif cls[0] in ("a", "k") and cls[-1].isdigit():
                 key = cls[0] + ":ok"
+            else:
+                key = cls[0] + ":" + cls[-1]
             outcomes[key] = outcomes.get(key, 0) + 1
     resp = {"good": 0, "E": 0, "S404": 0, "S-retry": 0, "S-other": 0, "B-chunked": 0, "B-ueof": 0, "B-together": 0,
             "B-closefail": 0, "B": 0}
